@@ -24,6 +24,7 @@ EXPRS = [
     # texts that differ only in white space inside a string literal (different expressions), and only outside one (same meaning)
     '//span[@t = "a b"]', '//span[@t = "a  b"]', '//span[@t="a b"]', '//span[contains(@t, " b")]', '//span[contains(@t, "  b")]',
 ]
+EXPRS += ['//span//span', '//div//div', '/div//div', '/div/span//span', '//div/span', '/div/span']     # the same name first and later in a path
 WS_PAIRS = [('//span[@t = "a b"]', '//span[@t = "a  b"]'), ('//span[contains(@t, " b")]', '//span[contains(@t, "  b")]'),
             ('//span[@t = "a b"]', '//span[@t="a b"]')]
 DOCS = [
@@ -33,6 +34,7 @@ DOCS = [
     '<div n="1"></div>',
     '<div n="1"><p n="2"><span n="3" class="x">t</span><span n="4">u</span></p><p n="5"><span n="6">u</span></p></div>',
     '<div n="1"><span n="2" t="a b">t</span><span n="3" t="a  b">u</span><span n="4" t="ab">v</span></div>',
+    '<div n="1"><span n="2">a<span n="3">b<span n="4">c</span></span></span><div n="5"><div n="6"><span n="7">d</span></div></div></div>',
 ]
 
 _state = {}
@@ -73,6 +75,46 @@ def setup():
         table.append(row)
     _state.update(valid=valid, perrs=perrs, table=table)
     return _state
+
+
+def fresh_table_json(perm):
+    """(run in a fresh interpreter) compile and evaluate the texts in the order perm, cache-less; prints the table as JSON"""
+    import AdvancedHTMLParser as A
+    from AdvancedHTMLParser.xpath.expression import XPathExpression
+    from AdvancedHTMLParser.xpath.parsing import parseXPathStrIntoOperations
+    docs = []
+    for d in DOCS:
+        p = A.AdvancedHTMLParser()
+        p.parseStr(d)
+        docs.append(p)
+    table = {}
+    for k in perm:
+        e = EXPRS[k]
+        try:
+            parseXPathStrIntoOperations(e)
+        except Exception as ex:
+            table[k] = 'exc:' + core.exc_name(ex)
+            continue
+        row = []
+        for p in docs:
+            x = object.__new__(XPathExpression)
+            x.xpathStr = e
+            x.orderedOperations = parseXPathStrIntoOperations(e)
+            row.append(show_eval(lambda: x.evaluate(p), p))
+        table[k] = row
+    sys.stdout.write('@@TABLE ' + json.dumps(table) + '\n')
+
+
+def fresh_table(perm):
+    import os
+    import subprocess
+    code = 'import json, sys; from harness.props import c15; c15.fresh_table_json(json.loads(sys.argv[1]))'
+    r = subprocess.run([sys.executable, '-c', code, json.dumps(perm)], stdin=subprocess.DEVNULL, capture_output=True, text=True, timeout=120,
+                       env=dict(os.environ))
+    for line in r.stdout.splitlines():
+        if line.startswith('@@TABLE '):
+            return {int(k): v for k, v in json.loads(line[8:]).items()}
+    raise RuntimeError('fresh interpreter gave no table: %s' % (r.stderr[-300:],))
 
 
 def ranks(p):
@@ -119,7 +161,7 @@ class C15(core.Check):
             'executed on the real global cache and on the model; after every event: result (uid ranks or exception class), '
             'recency list, table keys, lock state. Family (a): every sequence of <=4 (quick) / <=6 (thorough, all of them) events over '
             '5 texts with the bounds shrunk to 3/1 in the harness process; (b) random sequences of 300 (quick) / 2000 events '
-            'over 45 texts (valid, not compiling, failing at run time, pairs differing only in white space inside / outside a string literal) x 6 trees at the shipped bounds; (c) 2-16 real threads with '
+            'over 51 texts (valid, not compiling, failing at run time, pairs differing only in white space inside / outside a string literal) x 7 trees at the shipped bounds; the cache-less table recomputed by fresh interpreters that meet the texts in reversed / shuffled order; (c) 2-16 real threads with '
             'switch interval 1e-6 compared with the sequential cache-less results (oracle only). non-trivial = the cache '
             'state changes at least once; distinct by event list and bounds')
     TRUSTED = ['SHA-1 collision freeness of cache keys (the model keys the cache by the text)',
@@ -172,6 +214,13 @@ class C15(core.Check):
             for x, y in ((ia, ib), (ib, ia)):
                 cases.append(dict(bounds=list(st['shipped']), events=[['eval', x, wsdoc], ['eval', y, wsdoc], ['new', 0, x], ['new', 1, y],
                                                                      ['evalobj', 0, wsdoc], ['evalobj', 1, wsdoc], ['eval', x, wsdoc]]))
+        # (b'') the cache-less results themselves must not depend on what the process compiled before: a fresh interpreter that meets the
+        # texts in another order (reversed; shuffled) must produce the same table (oracle only)
+        perm = list(range(len(EXPRS)))
+        cases.append(dict(bounds=list(st['shipped']), order=perm[::-1]))
+        shuffled = perm[:]
+        rng.shuffle(shuffled)
+        cases.append(dict(bounds=list(st['shipped']), order=shuffled))
         # (c) threaded schedules (oracle only; not sent to the model)
         nt = 4 if self.tier == 'quick' else 30
         for _ in range(nt):
@@ -229,7 +278,7 @@ class C15(core.Check):
             restore_bounds()
 
     def run_impl(self, case):
-        if 'threads' in case:
+        if 'threads' in case or 'order' in case:
             return None
         out = []
 
@@ -261,6 +310,16 @@ class C15(core.Check):
         st = setup()
         if 'threads' in case:
             return self._oracle_threads(case)
+        if 'order' in case:
+            other = fresh_table(case['order'])
+            for k in case['order']:
+                here = st['table'][k] if st['valid'][k] else st['perrs'][k]
+                if other[k] != here:
+                    d = next((i for i in range(len(DOCS)) if isinstance(here, list) and isinstance(other[k], list) and here[i] != other[k][i]), 0)
+                    return ('%r on tree %d gives %s in a process that compiled the texts in the order %s... and %s in one that compiled them in source order'
+                            % (EXPRS[k], d, other[k][d] if isinstance(other[k], list) else other[k], [EXPRS[j] for j in case['order'][:3]],
+                               here[d] if isinstance(here, list) else here))
+            return None
         bad = []
         slotkey = {}
         mx = case['bounds'][0]
@@ -324,7 +383,7 @@ class C15(core.Check):
         return None
 
     def shrink_candidates(self, case):
-        if 'threads' in case:
+        if 'threads' in case or 'order' in case:
             return
         evs = case['events']
         if len(evs) > 8:
